@@ -10,6 +10,7 @@ import (
 	"net/http"
 	"strings"
 	"sync"
+	"sync/atomic"
 	"time"
 
 	"nhooyr.io/websocket"
@@ -104,6 +105,10 @@ func c11Keys() []hv {
 		{"valid-key-then-comma-key", []string{k16 + ", " + k16b}, 0},
 		{"space-padded", []string{"  " + k16 + " "}, 1},
 		{"noncanonical-padding-bits", []string{"AAAAAAAAAAAAAAAAAAAAAB=="}, -1},
+		{"18-bytes-24-chars", []string{base64.StdEncoding.EncodeToString([]byte("0123456789abcdefgh"))}, 0},
+		{"valid-line-plus-empty-line", []string{k16, ""}, 0},
+		{"empty-line-plus-valid-line", []string{"", k16}, 0},
+		{"blank-line-plus-valid-line", []string{"  ", k16b}, 0},
 	}
 }
 
@@ -201,7 +206,51 @@ func c11Gen(tier string, seed int64) []fw.Case {
 		d := c11Desc{Kind: "wire", Seed: rng.U64(), N: 40}
 		cases = append(cases, fw.Case{Name: fmt.Sprintf("wire/%d", i), Desc: d, Run: func(r *fw.R) { c11Wire(r, d) }})
 	}
+	// many handshakes at the same time, each with a key of its own: every answer carries the digest of ITS key
+	for i := 0; i < tierPick(tier, 4, 40); i++ {
+		d := c11Desc{Kind: "concurrent", Seed: rng.U64(), N: 24 * 300}
+		cases = append(cases, fw.Case{Name: fmt.Sprintf("concurrent/%d", i), Desc: d, Run: func(r *fw.R) { c11Concurrent(r, d) }})
+	}
 	return cases
+}
+
+func c11Concurrent(r *fw.R, d c11Desc) {
+	r.SetSample(d)
+	var wg sync.WaitGroup
+	var bad atomic.Int64
+	var first atomic.Value
+	for g := 0; g < 24; g++ {
+		wg.Add(1)
+		go func(g int) {
+			defer wg.Done()
+			rng := fw.NewRand(d.Seed + uint64(g)*7919)
+			for i := 0; i < 300; i++ {
+				key := base64.StdEncoding.EncodeToString(rng.Bytes(16))
+				req := attach.UpgradeRequest()
+				req.Header.Set("Sec-WebSocket-Key", key)
+				libEnd, peerEnd := xport.Pair(xport.Plan{NoTap: true}, xport.Plan{NoTap: true})
+				rec := &attach.Recorder{Conn: libEnd}
+				c, err := websocket.Accept(rec, req, nil)
+				got := rec.Header().Get("Sec-WebSocket-Accept")
+				if err != nil || c == nil || rec.Code != 101 || got != attach.AcceptKey(key) {
+					if bad.Add(1) == 1 {
+						first.Store(fmt.Sprintf("key %q: status %d err=%v Sec-WebSocket-Accept=%q, want %q", key, rec.Code, err, got, attach.AcceptKey(key)))
+					}
+				}
+				if c != nil {
+					c.CloseNow()
+				}
+				libEnd.Close()
+				peerEnd.Close()
+			}
+		}(g)
+	}
+	wg.Wait()
+	r.Count("concurrent_handshakes_checked", 24*300)
+	r.Key("concurrent/24-goroutines")
+	if n := bad.Load(); n > 0 {
+		r.Violate("C11/concurrent-handshake-answer-wrong", fmt.Sprintf("%d of %d handshakes running at the same time were not answered with 101 and the digest of their own key; first: %v", n, 24*300, first.Load()), "")
+	}
 }
 
 func setLines(h http.Header, name string, lines []string) {
